@@ -26,125 +26,8 @@ def build(reg, cfg=None):
     M.split_lemmas(reg, PROP)
 
 
-# ------------------------------------------------------------------------------------------------ native replay (ASan/UBSan build)
-DRIVER = r'''
-#include <cstdio>
-#include <cstdlib>
-#include <cmath>
-#include <map>
-#include <array>
-#include "local_mesh_refiner.hpp"
-#include "epithelial_cell.hpp"
-// One refinement pass (real local_mesh_refiner::refine_mesh) on an icosphere whose edges are all longer than l_max, so that every
-// edge is split; the node list has no spare capacity, so cell::add_node reallocates it. Built with ASan/UBSan: any use of a
-// reference into the old storage is reported. Afterwards momentum conservation and 'no surviving node moved' are checked.
-static void icosphere(double r, int sub, std::vector<double>& pos, std::vector<unsigned>& faces){
-  const double t = (1. + std::sqrt(5.)) / 2.;
-  std::vector<std::array<double,3>> v{{-1,t,0},{1,t,0},{-1,-t,0},{1,-t,0},{0,-1,t},{0,1,t},{0,-1,-t},{0,1,-t},{t,0,-1},{t,0,1},{-t,0,-1},{-t,0,1}};
-  std::vector<std::array<unsigned,3>> f{{0,11,5},{0,5,1},{0,1,7},{0,7,10},{0,10,11},{1,5,9},{5,11,4},{11,10,2},{10,7,6},{7,1,8},{3,9,4},{3,4,2},{3,2,6},{3,6,8},{3,8,9},{4,9,5},{2,4,11},{6,2,10},{8,6,7},{9,8,1}};
-  auto nrm = [](std::array<double,3>& p){ double n = std::sqrt(p[0]*p[0]+p[1]*p[1]+p[2]*p[2]); p[0]/=n; p[1]/=n; p[2]/=n; };
-  for(auto& p: v) nrm(p);
-  for(int s = 0; s < sub; s++){
-    std::map<std::pair<unsigned,unsigned>, unsigned> cache;
-    auto mid = [&](unsigned a, unsigned b){ auto k = std::make_pair(std::min(a,b), std::max(a,b)); auto it = cache.find(k); if(it != cache.end()) return it->second;
-      std::array<double,3> m{(v[a][0]+v[b][0])/2, (v[a][1]+v[b][1])/2, (v[a][2]+v[b][2])/2}; nrm(m); v.push_back(m); return cache[k] = (unsigned)v.size()-1; };
-    std::vector<std::array<unsigned,3>> f2;
-    for(auto& tr: f){ unsigned a = mid(tr[0],tr[1]), b = mid(tr[1],tr[2]), c = mid(tr[2],tr[0]); f2.push_back({tr[0],a,c}); f2.push_back({tr[1],b,a}); f2.push_back({tr[2],c,b}); f2.push_back({a,b,c}); }
-    f = f2;
-  }
-  for(auto& p: v){ pos.push_back(r*p[0]); pos.push_back(r*p[1]); pos.push_back(r*p[2]); }
-  for(auto& tr: f){ faces.push_back(tr[0]); faces.push_back(tr[1]); faces.push_back(tr[2]); }
-}
-static int inconsistent_edges(const cell_ptr& c){
-  // every edge must be traversed in opposite directions by its two triangles
-  std::map<std::pair<unsigned,unsigned>, int> dir; int bad = 0;
-  for(const face& f: c->get_face_lst()){ if(!f.is_used()) continue; auto [a,b,d] = f.get_node_ids(); unsigned v[3] = {a,b,d};
-    for(int i = 0; i < 3; i++){ unsigned x = v[i], y = v[(i+1)%3]; auto k = std::make_pair(std::min(x,y), std::max(x,y)); dir[k] += (x < y) ? 1 : -1; } }
-  for(auto& kv: dir) if(kv.second != 0) bad++;
-  return bad;
-}
-static double signed_volume(const cell_ptr& c){
-  double s = 0; for(const face& f: c->get_face_lst()){ if(!f.is_used()) continue; auto [a,b,d] = f.get_node_ids();
-    const vec3& p = c->get_node_lst()[a].pos(); const vec3& q = c->get_node_lst()[b].pos(); const vec3& r = c->get_node_lst()[d].pos(); s += p.dot(q.cross(r)); }
-  return s / 6.;
-}
-static vec3 total_momentum(const cell_ptr& c){ vec3 m(0,0,0); for(const node& nd: c->node_lst_) if(nd.is_used()) m = m + nd.momentum_; return m; }
-int main(int argc, char** argv){
-  const std::string mode = argc > 1 ? argv[1] : "split";
-  face_type_parameters ft; ft.name_ = "apical"; ft.face_type_global_id_ = 0;
-  auto ct = std::make_shared<cell_type_parameters>(); ct->name_ = "epithelial"; ct->global_type_id_ = 0; ct->add_face_type(ft);
-  std::vector<double> pos; std::vector<unsigned> faces; icosphere(1.0, mode == "dimple" ? 2 : 1, pos, faces);
-  if(mode == "dimple"){ for(size_t k = 0; k < pos.size() / 3; k++) if(pos[3*k+2] > 0.3) pos[3*k+2] = 0.6 - pos[3*k+2]; }     // cap reflected into the ball: a deep invagination
-  auto c = std::make_shared<epithelial_cell>(pos, faces, 0, ct); c->initialize_cell_properties(true);
-  c->node_lst_.shrink_to_fit(); c->face_lst_.shrink_to_fit();
-  const size_t n0 = c->node_lst_.size();
-  for(size_t k = 0; k < n0; k++) c->node_lst_[k].momentum_ = vec3(0.1*k + 0.3, -0.2*k, 0.05*k*k);
-  int bad = 0;
-  auto pass = [&](local_mesh_refiner& lmr, const char* what){
-    std::vector<vec3> p0; std::vector<bool> used0; for(const node& nd: c->node_lst_){ p0.push_back(nd.pos_); used0.push_back(nd.is_used()); }
-    const vec3 mom0 = total_momentum(c); const double vol0 = signed_volume(c);
-    const size_t free0 = c->free_node_queue_.size();
-    lmr.refine_mesh(c);
-    const vec3 mom1 = total_momentum(c);
-    if((mom1 - mom0).norm() > 1e-9 * (1 + mom0.norm())){ printf("FAIL %s: total momentum changed from (%g,%g,%g) to (%g,%g,%g)\n", what, mom0.dx(),mom0.dy(),mom0.dz(), mom1.dx(),mom1.dy(),mom1.dz()); bad = 1; }
-    if(free0 == 0 && mode != "reuse") for(size_t k = 0; k < p0.size(); k++) if(used0[k] && c->node_lst_[k].is_used() && (c->node_lst_[k].pos_ - p0[k]).norm() != 0){ printf("FAIL %s: surviving node %zu moved\n", what, k); bad = 1; break; }
-    if(!c->is_manifold()){ printf("FAIL %s: surface is no longer a closed manifold\n", what); bad = 1; }
-    int inc = inconsistent_edges(c); if(inc){ printf("FAIL %s: %d edges are traversed in the same direction by both of their triangles (inconsistent winding)\n", what, inc); bad = 1; }
-    if(signed_volume(c) <= 0){ printf("FAIL %s: enclosed volume is not positive any more (%g -> %g)\n", what, vol0, signed_volume(c)); bad = 1; }
-    return vol0;
-  };
-  try{
-    if(mode == "split"){ local_mesh_refiner lmr(0.1, 0.4, false); pass(lmr, "split pass"); }
-    else if(mode == "dimple"){ local_mesh_refiner lmr(1e-4, 0.2, false); double v0 = pass(lmr, "split pass on a cell with an invagination");
-      if(std::fabs(signed_volume(c) - v0) > 1e-9 * std::fabs(v0)){ printf("FAIL splits changed the enclosed volume %g -> %g\n", v0, signed_volume(c)); bad = 1; } }
-    else { // reuse: a collapse frees node slots, the splits of the next pass recycle them
-      { const unsigned u = faces[0], w = faces[1];       // two nodes joined by an edge
-        c->node_lst_[w].pos_ = c->node_lst_[u].pos_ + (c->node_lst_[w].pos_ - c->node_lst_[u].pos_) * 0.2; }
-      local_mesh_refiner lmr(0.3, 0.9, false); pass(lmr, "pass with a collapse");
-      size_t far = faces[faces.size() - 1]; c->node_lst_[far].pos_ = c->node_lst_[far].pos_ * 2.2;
-      pass(lmr, "pass with splits that recycle freed slots");
-    }
-  }catch(const std::exception& e){ printf("OK refused: %s\n", e.what()); return bad; }
-  if(!bad) printf("OK %s: %zu -> %zu nodes\n", mode.c_str(), n0, c->node_lst_.size());
-  return bad;
-}
-'''
-
-_CACHE = {}
-
-
-MODES = ['split', 'reuse', 'dimple']
-
-
-def _run_modes():
-    import native
-    if 'r' not in _CACHE:
-        res = []
-        for m in MODES:
-            code, out = native.run_driver(DRIVER, [m], sanitize=True, timeout=900)
-            res.append((m, code, out))
-            if code not in (0, 124, 125): break
-        _CACHE['r'] = res
-    return _CACHE['r']
-
-
-def replay(ob, ins, run):
-    """refinement passes of the real local_mesh_refiner under ASan/UBSan: (split) an icosphere whose edges are all too long, node list
-    without spare capacity; (reuse) a collapse followed by splits that recycle the freed slots; (dimple) a cell with a deep invagination.
-    Checked afterwards: total momentum, immobility of surviving nodes, closed manifold, consistent winding, positive / unchanged volume"""
-    res = _run_modes()
-    bad = [(m, c, o) for (m, c, o) in res if c not in (0, 124, 125)]
-    if bad:
-        m, c, o = bad[0]
-        return {'confirmed': True, 'exit': c, 'args': [m], 'output': o[-3000:], 'driver': 'specs/C11.py:DRIVER mode %s (real refine_mesh, ASan/UBSan build)' % m}
-    return {'confirmed': False, 'tried': [(m, c) for (m, c, o) in res], 'output': res[-1][2][-500:] if res else '', 'driver': 'specs/C11.py:DRIVER'}
-
-
-def replay_recorded(data):
-    import native
-    args = data.get('native', {}).get('args') or ['split']
-    code, out = native.run_driver(DRIVER, args, sanitize=True, timeout=900)
-    return {'confirmed': code not in (0, 124, 125), 'output': out}
+replay = M.replay
+replay_recorded = M.replay_recorded
 
 
 EXPLANATION = ("Mesh editing primitives under contract over a full model of std::set<edge> (membership + stored edge per sorted node pair): "
